@@ -103,7 +103,7 @@ theorem build_mount_wf (bs : Nat) (keys : List Key) (kids : List NodeId) (next :
     · rw [hblocks] at hm
       exact absurd (hlt _ hm).2 (Nat.lt_irrefl _)
   have hst : ((build bs keys kids next).mount none).w.storage = (itemsOf bs keys next).map some := h1
-  refine ⟨⟨?_, ?_, hk⟩, ⟨?_, ?_, ?_, ?_, hbs⟩⟩
+  refine ⟨⟨?_, ?_, hk⟩, ⟨?_, ?_, ?_, ?_, hbs, rfl⟩⟩
   · rw [hst, somes_map_some]
   · rw [hst, somes_map_some]; exact itemsOf_keys bs keys next
   · rw [hmount, blocksOf_eq, hst, somes_map_some]
